@@ -28,6 +28,9 @@ and mapproxy/cache/file.py (FileCache.tile_location / level_location) -> coq/gen
 * mapproxy/cache/legend.py `legend_hash`, `LegendCache.store` / `load` and request/wms `WMSLegendGraphicRequestParams._get_scale`
   are pinned whole: the legend file is <cache_dir>/<md5 hexdigest>.<ext>, the request's SCALE is a float (or None) and only enters the digest.
 
+* pinned whole as well: cache/base.py `TileLocker.lock`, cache/file.py `FileCache._store_single_color_tile` and
+  `_single_color_tile_location`, source/wms.py `WMSLegendSource.get_legend`, cache/legend.py `Legend.__init__`.
+
 Fail closed: any other shape raises Unsupported (the check then reports a broken translator obligation).
 """
 import ast
@@ -294,6 +297,31 @@ def legend_pinned(ltree, rtree):
             raise Unsupported('%s no longer has the pinned body (constants %r): %s ...' % (name, h.values, got[:300]))
 
 
+# further methods pinned whole: (file, class, method, sha256 of the hole-dump of the body, string constants)
+HASH_PINS = [('mapproxy/cache/base.py', 'TileLocker', 'lock', 'a491b826577bc52bb20c4073d12c2b590c70f23d7646e0b541e9d5fc9b97debe', ['locking_disabled']),
+             ('mapproxy/cache/file.py', 'FileCache', '_store_single_color_tile', '4c5d2b1e5f76d05aa3afc5dfec968b5623280fff64794bacf9b53d255027ef7b', ['linking %r from %s to %s', 'hardlink', '.tmp-', 'hardlink']),
+             ('mapproxy/cache/file.py', 'FileCache', '_single_color_tile_location', '811eac5454472d29f01f0085889fe82d9c1ccf08396156ad2bbd1ee0be270b4f', ['single_color_tiles', '', '%02x', '.']),
+             ('mapproxy/source/wms.py', 'WMSLegendSource', 'get_legend', 'c45c475f6344f505cf738df2021a13d9a052c770696d98b0ca316683219e127e', ['json', 'json']),
+             ('mapproxy/cache/legend.py', 'Legend', '__init__', '498bc8d8e450db15cad4e63f7a1395af8e37a00404125069d931badd5a6a4841', [])]
+
+
+def hash_pins(repo):
+    """TileLocker.lock (the lock file is self.lock_filename(tile), nothing else), FileCache._store_single_color_tile (link text =
+    os.path.relpath(real_tile_loc, os.path.dirname(tile_loc)) for every tile), FileCache._single_color_tile_location,
+    WMSLegendSource.get_legend and Legend.__init__ (the requested FORMAT does not reach the legend cache file name)."""
+    import hashlib
+    trees = {}
+    for f, c, n, digest, consts in HASH_PINS:
+        if f not in trees:
+            trees[f] = ast.parse(open(os.path.join(repo, f)).read())
+        fn = _func(trees[f], n, cls=c)
+        h = _Holes()
+        body = [h.visit(x) for x in _body(fn)]
+        got = '[' + ', '.join(ast.dump(x) for x in body) + ']'
+        if hashlib.sha256(got.encode()).hexdigest() != digest or h.values != consts:
+            raise Unsupported('%s %s.%s no longer has the pinned body (constants %r): %s ...' % (f, c, n, h.values, got[:300]))
+
+
 class _Holes(ast.NodeTransformer):
     """replace every str constant by a numbered hole, remembering the values"""
 
@@ -352,6 +380,7 @@ def generate(repo):
     conf_base_dir_pinned(ast.parse(open(os.path.join(repo, 'mapproxy/config/loader.py')).read()))
     legend_pinned(ast.parse(open(os.path.join(repo, 'mapproxy/cache/legend.py')).read()),
                   ast.parse(open(os.path.join(repo, 'mapproxy/request/wms/__init__.py')).read()))
+    hash_pins(repo)
     multiapp_pinned(ast.parse(open(os.path.join(repo, 'mapproxy/multiapp.py')).read()))
     for name in FILE_ACCESS_METHODS:
         file_access_pinned(_func(ftree, name, cls='FileCache'))
